@@ -286,6 +286,15 @@ impl Check for C16 {
         if v.spec.preamble.is_some() != sc.net.cfg.proxy.is_some() {
             return RunReport::default();
         }
+        // the services as generated: something to route to, an authentication service that only turns down "Hostile..." names
+        {
+            let s = &sc.net.services;
+            let routable = matches!(&s.discovery.default.res, crate::services::DiscRes::Targets(t) if !t.is_empty()) && s.discovery.calls.is_empty() && s.discovery.default.lat_ns.is_some();
+            let auth_ok = matches!(&s.auth.default.res, AuthRes::ErrorIfName { prefix } if prefix == "Hostile") && s.auth.calls.is_empty() && s.auth.default.lat_ns == Some(0);
+            if !routable || !auth_ok || v.spec.name.starts_with("Hostile") || v.spec.protocol <= 0 || v.spec.shared_secret.len() != 16 {
+                return RunReport::default();
+            }
+        }
         // without PROXY protocol the victim needs a peer address of its own (with it, the announced source counts)
         if sc.net.cfg.proxy.is_none() && sc.net.clients[..n - 1].iter().any(|c| c.peer.split(':').next() == v.peer.split(':').next()) {
             return RunReport::default();
